@@ -304,6 +304,11 @@ class Episode:
             self.rate = inp.real("rate", 0.0, 0.2)
             self.rate_event = EventNBBO(self.T[0], BrokerFees().interest_rate, self.rate, self.rate)
             self.rate_event._tag = "rate"
+        for j in range(cfg.get("tied", 0)):
+            # many custom events sharing ONE (symbolic) timestamp: ties must keep insertion order
+            ev = Ping(inp.time("Etied", t_lo, t_hi), 5000.0 + j)
+            ev._tag = "tied%d" % j
+            self.free.append(ev)
         order = cfg.get("insertion", "bars-first")
         bars_flat = [ev for row in self.bars for ev in row]
         if order == "bars-first":
@@ -319,11 +324,13 @@ class Episode:
         self.fold_name = "training-set"
         fold = cfg.get("fold")
         self.S = self.Eend = None
+        self.fold_bounds = {}
         if fold == "sym":
             self.S = inp.time("S", datetime(1999, 1, 1), datetime(2101, 1, 1))
             self.Eend = inp.time("Eend", datetime(1999, 1, 1), datetime(2101, 1, 1))
             c.assume(self.S <= self.Eend)
             folds = {"training-set": [self.S, self.Eend]}
+            self.fold_bounds = {"training-set": (self.S, self.Eend)}
         elif fold == "two":
             self.S = inp.time("S", datetime(1999, 1, 1), datetime(2101, 1, 1))
             self.Eend = inp.time("Eend", datetime(1999, 1, 1), datetime(2101, 1, 1))
@@ -334,6 +341,7 @@ class Episode:
             c.assume(self.S <= S2)      # PartitionTimeRanges sorts folds by (start, end)
             folds = {"training-set": [S2, E2], "test-set": [self.S, self.Eend]}
             self.fold_name = "test-set"
+            self.fold_bounds = {"test-set": (self.S, self.Eend), "training-set": (S2, E2)}
         self.markov = bool(cfg.get("markov", False))
         self.warmup = None
         if cfg.get("warmup") == "sym":
@@ -378,6 +386,11 @@ class Episode:
                               latency=self.L, steps_delay=cfg.get("delay", 0),
                               episode_length=cfg.get("episode_length"), **kw)
         self.envbox.append(self.env)
+
+    def use_fold(self, name):
+        """Select which fold the next episode runs on (two-fold configurations)."""
+        self.fold_name = name
+        self.S, self.Eend = self.fold_bounds[name]
 
     def clone(self):
         """A freshly built, identically configured environment over the same inputs."""
